@@ -45,7 +45,9 @@ struct World {
 static WORLD: Mutex<Option<World>> = Mutex::new(None);
 
 fn world_init() -> World {
-    let tmp = tempfile::tempdir().expect("tempdir");
+    // memory-backed scratch space when available: the nodes' SQLite databases and git repositories fsync a lot
+    let shm = std::path::Path::new("/dev/shm");
+    let tmp = if shm.is_dir() { tempfile::tempdir_in(shm).or_else(|_| tempfile::tempdir()) } else { tempfile::tempdir() }.expect("tempdir");
     let alice = Node::init(tmp.path(), Config::test(Alias::new("alice")));
     let bob = Node::init(tmp.path(), Config::test(Alias::new("bob")));
     let other = Node::init(tmp.path(), Config::test(Alias::new("carol"))).id;
